@@ -26,6 +26,16 @@ impl NodeIndex<FnIdInner> {
     { unimplemented!() }
 }
 
+// ASSUMED: the derived PartialEq of the index newtypes compares the wrapped value (std derive contract)
+impl<Ix: PartialEq> vstd::std_specs::cmp::PartialEqSpecImpl for NodeIndex<Ix> {
+    open spec fn obeys_eq_spec() -> bool { Ix::obeys_eq_spec() }
+    open spec fn eq_spec(&self, other: &NodeIndex<Ix>) -> bool { self.0.eq_spec(&other.0) }
+}
+impl vstd::std_specs::cmp::PartialEqSpecImpl for FnIdInner {
+    open spec fn obeys_eq_spec() -> bool { true }
+    open spec fn eq_spec(&self, other: &FnIdInner) -> bool { self.0 == other.0 }
+}
+
 pub open spec fn nid(i: int) -> NodeIndex<FnIdInner> {
     NodeIndex(FnIdInner(i as usize))
 }
@@ -196,4 +206,71 @@ impl AdjIter {
                 && r.unwrap().1.0.0 == (if old(self).outgoing() { old(self).es()[old(self).rest()[0]].dst } else { old(self).es()[old(self).rest()[0]].src })
                 && final(self).rest() == old(self).rest().skip(1),
     { unimplemented!() }
+}
+
+// ---- mutation / queries used by the builder --------------------------------------------------------
+#[verifier::external_body]
+#[verifier::reject_recursive_types(E)]
+pub struct WouldCycle<E> { _p: PhantomData<E> }
+
+#[verifier::external]
+impl<E> core::fmt::Debug for WouldCycle<E> {
+    fn fmt(&self, f: &mut core::fmt::Formatter<'_>) -> core::fmt::Result { f.write_str("WouldCycle") }
+}
+
+#[verifier::external_body]
+pub struct DfsSpace { _p: usize }
+
+/// first edge index a -> b, if any
+pub open spec fn find_edge_spec(es: Seq<EdgeV>, a: int, b: int) -> Option<int> {
+    if exists|e: int| 0 <= e < es.len() && #[trigger] es[e].src == a && es[e].dst == b {
+        Some(choose|e: int| 0 <= e < es.len() && #[trigger] es[e].src == a && es[e].dst == b)
+    } else {
+        None
+    }
+}
+
+impl<N> Dag<N, Edge, FnIdInner> {
+    /// daggy::Dag::update_edge (source read, daggy 0.9.0 lib.rs): existing edge a->b: weight replaced;
+    /// otherwise add_edge with cycle check (WouldCycle iff a == b or b reaches a); graph untouched on Err.
+    #[verifier::external_body]
+    pub fn update_edge(&mut self, a: NodeIndex<FnIdInner>, b: NodeIndex<FnIdInner>, k: Edge) -> (r: Result<EdgeIndex<FnIdInner>, WouldCycle<Edge>>)
+        requires old(self).wf(), a.0.0 < old(self).n(), b.0.0 < old(self).n(),
+        ensures
+            final(self).wf(),
+            final(self).n() == old(self).n(),
+            final(self).weights() == old(self).weights(),
+            has_edge(old(self).edges(), a.0.0 as int, b.0.0 as int) ==> r.is_ok()
+                && final(self).edges().len() == old(self).edges().len()
+                && (forall|e: int| 0 <= e < old(self).edges().len() ==> (#[trigger] final(self).edges()[e]).src == old(self).edges()[e].src
+                        && final(self).edges()[e].dst == old(self).edges()[e].dst)
+                && (forall|e: int| 0 <= e < old(self).edges().len() && !(old(self).edges()[e].src == a.0.0 && old(self).edges()[e].dst == b.0.0)
+                        ==> #[trigger] final(self).edges()[e] == old(self).edges()[e])
+                && (exists|e: int| 0 <= e < old(self).edges().len() && old(self).edges()[e].src == a.0.0 && old(self).edges()[e].dst == b.0.0
+                        && (#[trigger] final(self).edges()[e]).kind == k && r.unwrap().0.0 == e),
+            !has_edge(old(self).edges(), a.0.0 as int, b.0.0 as int) && (a.0.0 == b.0.0 || reach(old(self).edges(), b.0.0 as int, a.0.0 as int))
+                ==> r.is_err() && final(self).edges() == old(self).edges(),
+            !has_edge(old(self).edges(), a.0.0 as int, b.0.0 as int) && !(a.0.0 == b.0.0 || reach(old(self).edges(), b.0.0 as int, a.0.0 as int))
+                ==> r.is_ok() && r.unwrap().0.0 == old(self).edges().len()
+                    && final(self).edges() == old(self).edges().push(EdgeV { src: a.0.0 as int, dst: b.0.0 as int, kind: k }),
+    { unimplemented!() }
+}
+
+/// petgraph::algo::has_path_connecting(g, a, b, None): true iff b is reachable from a (a reaches itself)
+#[verifier::external_body]
+pub fn has_path_connecting<N>(g: &Dag<N, Edge, FnIdInner>, a: NodeIndex<FnIdInner>, b: NodeIndex<FnIdInner>, space: Option<&mut DfsSpace>) -> (r: bool)
+    requires g.wf(), a.0.0 < g.n(), b.0.0 < g.n(),
+    ensures r == reach(g.edges(), a.0.0 as int, b.0.0 as int),
+{ unimplemented!() }
+
+impl<N> Index<NodeIndex<FnIdInner>> for Dag<N, Edge, FnIdInner> {
+    type Output = N;
+    #[verifier::external_body]
+    fn index(&self, i: NodeIndex<FnIdInner>) -> (r: &N)
+        ensures *r == self.weights()[i.0.0 as int],
+    { unimplemented!() }
+}
+
+impl<N> vstd::std_specs::core::IndexSpecImpl<NodeIndex<FnIdInner>> for Dag<N, Edge, FnIdInner> {
+    open spec fn index_req(&self, i: &NodeIndex<FnIdInner>) -> bool { i.0.0 < self.n() }
 }
